@@ -837,7 +837,7 @@ func checkC01(c *Ctx, r *Report) {
 	ruleFalsey(c, r, "falsey", spec)
 	ruleArithMap(c, r, "arith-map")
 	ruleConstPush(c, r, "const-push")
-	ruleDivZero(c, r, "div-zero")
+	ruleDivZero(c, r, "div-zero", true)
 	ruleVMEffect(c, r, "vm-effect", true)
 	r.note("the value of any compound expression; the (operator x type x type) dispatch cells of the arithmetic arm beyond operand order (the suite pins them at depth one); string/number coercion cells")
 	r.assume("assumption A (no diagnostic raised) for the emission templates")
@@ -845,7 +845,7 @@ func checkC01(c *Ctx, r *Report) {
 
 // ruleDivZero: the numeric division is reached only past the documented
 // "int zero divisor" error check, which depends on the divisor alone.
-func ruleDivZero(c *Ctx, r *Report, rule string) {
+func ruleDivZero(c *Ctx, r *Report, rule string, strict bool) {
 	r.rule(rule, 1, "in the DIV arm every path that performs the numeric operation has passed isInt(top)=false or top==0 =false: division by an int zero is a runtime error whatever the dividend, and Go's integer division is never reached with a zero divisor")
 	vm, err := c.vmModel()
 	if err != nil {
@@ -867,6 +867,11 @@ func ruleDivZero(c *Ctx, r *Report, rule string) {
 				switch ev.Detail {
 				case "callres(isInt(stk(-1)))=false", "stk(-1) == 0=false", "0 == stk(-1)=false", "stk(-1) != 0=true":
 					passed = true
+				case "callres(isInt(stk(-2)))=false":
+					// a non-int dividend means floating-point division: no panic, but not the documented error either
+					if !strict {
+						passed = true
+					}
 				case "callres(isInt(stk(-1)))=true":
 					intTrue = true
 				case "stk(-1) == 0=true", "0 == stk(-1)=true", "stk(-1) != 0=false":
@@ -886,7 +891,7 @@ func ruleDivZero(c *Ctx, r *Report, rule string) {
 				}
 			}
 		}
-		if p.Abort && intTrue && zeroTrue {
+		if p.Abort && zeroTrue && (intTrue || !strict) {
 			errPath = true
 		}
 	}
